@@ -95,10 +95,4 @@ Proof.
   cbn. intros Hz. unfold on_line_through. cbn [fst snd]. split; field; intros E; apply Hz; rewrite <- E; ring.
 Qed.
 
-(* Intersect returns the point iff the crossing is inside both segments, where inside means
-   that the arriving and leaving azimuths have the same sign and outside that they differ *)
-Lemma bounded_decision sa1 sa2 sb1 sb2 :
-  bounded_ok sa1 sa2 sb1 sb2 = true <-> (sa1 = sa2 /\ sb1 = sb2).
-Proof.
-  unfold bounded_ok. rewrite andb_true_iff, !eqb_true_iff. tauto.
-Qed.
+
